@@ -58,3 +58,158 @@ Theorem C08_product_kernel_is_todays_source : forall (R : Type) (O : ops R) sfun
   gen_codegen_product O sfun filt kout x y = codegen_product O sfun filt kout x y.
 Proof. exact @br_codegen_product. Qed.
 Print Assumptions C08_product_kernel_is_todays_source.
+
+(* ---- inverse, division, integer powers (Model/Inverse.v; proofs in Theory/InverseCongr.v) ----
+   [res_equiv r r']: both raise the same exception, or both return and the results are == ;
+   [same_keys x x']: the same SET of stored blades (any order);
+   [filter_respects F]: OperatorDict.filter maps re-stored operands to re-stored operands - true of the
+   identity (numeric evaluation) and of the zero filter of the symbolic generation (C08_inverse_filters);
+   dv (the division of coefficients) and isz (their truth value) are ARBITRARY functions.
+   Explicit stored zeros are covered by == (a stored 0 and an absent key have the same coefficient):
+   C08_inverse_padded.  For d >= 6 (Shirokov's iteration) the operands must store the same blades: the break
+   test `xi.grades == (0,)` reads stored keys; without it the statement is false for the numeric filter
+   (C08_shirokov_padded_numeric_refuted). *)
+From Coq Require Import QArith Qcanon.
+From KV Require Import Model.Inverse Theory.WF Theory.Inverse Theory.InverseCongr.
+Local Open Scope Z_scope.
+
+Section RingInverse.
+  Variable R : Type.
+  Variables (rO rI : R) (radd rmul rsub : R -> R -> R) (ropp : R -> R).
+  Hypothesis Rth : ring_theory rO rI radd rmul rsub ropp (@eq R).
+  Local Notation O := (mkOps R radd rsub rmul ropp rO rI).
+  Local Notation "x == y" := (Sparse.equiv rO rI radd rmul rsub ropp x y) (at level 70).
+  Local Notation same_keys := (same_keys R).
+  Local Notation res_equiv := (res_equiv R rO rI radd rmul rsub ropp).
+  Local Notation filter_respects := (filter_respects R rO rI radd rmul rsub ropp).
+  Local Notation IC l := (l R rO rI radd rmul rsub ropp Rth) (only parsing).
+
+  (* the hypotheses are satisfiable: every well-formed algebra, both filters of kingdon *)
+  Theorem C08_inverse_algebras : forall A, wf_alg A = true -> NoDup (canon_keys A).
+  Proof. exact nodup_of_wf. Qed.
+  Theorem C08_inverse_filters :
+    filter_respects (fun z => z)
+    /\ forall isz : R -> bool, (forall r, isz r = true -> r = rO) -> filter_respects (filter_nz isz).
+  Proof. split; [apply filter_respects_id | apply filter_respects_nz]. Qed.
+
+  (* closed-form numerators (d <= 5; NotImplementedError beyond, on both sides) and denominators *)
+  Theorem C08_hitzer_num : forall A F (x x' : mv R), NoDup (canon_keys A) -> filter_respects F ->
+    NoDup (keys x) -> NoDup (keys x') -> x == x' ->
+    res_equiv (hitzer_num O F A x) (hitzer_num O F A x').
+  Proof. intros. apply (IC hitzer_num_storage_independent); try assumption. repeat split; assumption. Qed.
+  Theorem C08_hitzer : forall A F (x x' : mv R), NoDup (canon_keys A) -> filter_respects F ->
+    NoDup (keys x) -> NoDup (keys x') -> x == x' ->
+    res_rel (fun p p' => fst p == fst p' /\ snd p = snd p') (hitzer O F A x) (hitzer O F A x').
+  Proof. intros. apply (IC hitzer_storage_independent); try assumption. repeat split; assumption. Qed.
+
+  (* the Shirokov loop: same break round i, == xi and xs storing the same blades, EQUAL coefficients cs *)
+  Theorem C08_shirokov : forall A dv isz F (x x' : mv R), NoDup (canon_keys A) -> filter_respects F ->
+    NoDup (keys x) -> NoDup (keys x') -> x == x' -> same_keys x x' ->
+    res_rel (fun r r' =>
+               let '(i, xi, xs, cs) := r in
+               let '(i', xi', xs', cs') := r' in
+               i = i' /\ (xi == xi' /\ same_keys xi xi')
+               /\ Forall2 (fun u u' => u == u' /\ same_keys u u') xs xs' /\ cs = cs')
+            (shirokov_run O dv isz F A x) (shirokov_run O dv isz F A x').
+  Proof. intros. apply (IC shirokov_storage_independent); assumption. Qed.
+
+  (* alg.inv(x) *)
+  Theorem C08_inverse : forall A dv isz F (x x' : mv R), NoDup (canon_keys A) -> filter_respects F ->
+    NoDup (keys x) -> NoDup (keys x') -> x == x' -> ((a_d A < 6)%nat \/ same_keys x x') ->
+    res_equiv (inv_model O dv isz F A x) (inv_model O dv isz F A x').
+  Proof. intros. apply (IC inverse_storage_independent); try assumption. repeat split; assumption. Qed.
+  (* every permutation of the key tuple, every dimension *)
+  Theorem C08_inverse_permuted : forall A dv isz F (x x' : mv R), NoDup (canon_keys A) -> filter_respects F ->
+    NoDup (keys x) -> Permutation x x' ->
+    res_equiv (inv_model O dv isz F A x) (inv_model O dv isz F A x').
+  Proof. intros. apply (IC inverse_storage_independent); try assumption. apply restored_perm; assumption. Qed.
+  (* explicit zeros on any extra blades ks *)
+  Theorem C08_inverse_padded : forall A dv isz F (x : mv R) ks, NoDup (canon_keys A) -> filter_respects F ->
+    (a_d A < 6)%nat -> NoDup (keys x ++ ks) ->
+    res_equiv (inv_model O dv isz F A x) (inv_model O dv isz F A (x ++ map (fun k => (k, rO)) ks)).
+  Proof. intros. apply (IC inverse_storage_independent); try assumption. apply restored_pad; assumption. Qed.
+  (* operands storing the same blades: so do the inverses *)
+  Theorem C08_inverse_same_blades : forall A dv isz F (x x' : mv R), NoDup (canon_keys A) -> filter_respects F ->
+    NoDup (keys x) -> NoDup (keys x') -> x == x' -> same_keys x x' ->
+    res_rel (fun r r' => r == r' /\ same_keys r r') (inv_model O dv isz F A x) (inv_model O dv isz F A x').
+  Proof. intros. apply (IC inverse_storage_independent_keys); assumption. Qed.
+
+  (* a / b with both operands re-stored (no restriction on the dividend), number / x, x / number *)
+  Theorem C08_division : forall A dv isz F (a a' y y' : mv R), NoDup (canon_keys A) -> filter_respects F ->
+    NoDup (keys a) -> NoDup (keys a') -> a == a' ->
+    NoDup (keys y) -> NoDup (keys y') -> y == y' -> ((a_d A < 6)%nat \/ same_keys y y') ->
+    res_equiv (div_model O dv isz F A a y) (div_model O dv isz F A a' y').
+  Proof. intros. apply (IC division_storage_independent); try assumption; repeat split; assumption. Qed.
+  Theorem C08_number_over : forall A dv isz F c (x x' : mv R), NoDup (canon_keys A) -> filter_respects F ->
+    NoDup (keys x) -> NoDup (keys x') -> x == x' -> ((a_d A < 6)%nat \/ same_keys x x') ->
+    res_equiv (rdiv_number O dv isz F A c x) (rdiv_number O dv isz F A c x').
+  Proof. intros. apply (IC rdivision_storage_independent); try assumption. repeat split; assumption. Qed.
+  Theorem C08_over_number : forall A dv isz F (x x' : mv R) c, NoDup (canon_keys A) -> filter_respects F ->
+    NoDup (keys x) -> NoDup (keys x') -> x == x' ->
+    res_equiv (div_number O dv isz F A x c) (div_number O dv isz F A x' c).
+  Proof. intros. apply (IC division_by_number_storage_independent); try assumption. repeat split; assumption. Qed.
+
+  (* x ** p, every integer p: p >= 0 unrestricted, p < 0 as the inverse *)
+  Theorem C08_power : forall A dv isz F (x x' : mv R) (p : Z), NoDup (canon_keys A) -> filter_respects F ->
+    NoDup (keys x) -> NoDup (keys x') -> x == x' -> (0 <= p \/ (a_d A < 6)%nat \/ same_keys x x') ->
+    res_equiv (pow_model O dv isz F A x p) (pow_model O dv isz F A x' p).
+  Proof.
+    intros A dv isz F x x' p HA HF H1 H2 H3 H4. apply (IC power_storage_independent); try assumption.
+    - repeat split; assumption.
+    - destruct H4 as [H4|H4]; [left; exact H4 | right; repeat split; assumption].
+  Qed.
+End RingInverse.
+Print Assumptions C08_inverse_algebras.
+Print Assumptions C08_inverse_filters.
+Print Assumptions C08_hitzer_num.
+Print Assumptions C08_hitzer.
+Print Assumptions C08_shirokov.
+Print Assumptions C08_inverse.
+Print Assumptions C08_inverse_permuted.
+Print Assumptions C08_inverse_padded.
+Print Assumptions C08_inverse_same_blades.
+Print Assumptions C08_division.
+Print Assumptions C08_number_over.
+Print Assumptions C08_over_number.
+Print Assumptions C08_power.
+
+(* the restriction for d >= 6 is needed: over the rationals with their own division, numeric evaluation
+   (nothing filtered), signature (+,+,+,+,-,0): the scalar 2 stored as {e: 2} and as {e: 2, e1: 0} leaves the
+   Shirokov loop in round 1 resp. after all 8 rounds, and the model returns 1/2 resp. 0.  (The public
+   alg.inv never runs the loop on numbers: it generates code from a symbolic operand, one nonzero symbol per
+   stored blade, with the zero filter.) *)
+Theorem C08_shirokov_padded_numeric_refuted :
+  let A := mk_default [1; 1; 1; 1; -1; 0] 1 false in
+  let x := [(0, Q2Qc (2 # 1))] in
+  let x' := [(0, Q2Qc (2 # 1)); (1, Q2Qc (0 # 1))] in
+  restored_any Qc (Q2Qc 0) (Q2Qc 1) Qcplus Qcmult Qcminus Qcopp x x' /\
+  (exists i i' xi xi' xs xs' cs cs',
+      shirokov_run Qcops Qcdiv Qcisz idF A x = Ok (i, xi, xs, cs)
+      /\ shirokov_run Qcops Qcdiv Qcisz idF A x' = Ok (i', xi', xs', cs') /\ i = 1%nat /\ i' = 8%nat) /\
+  ~ res_equiv Qc (Q2Qc 0) (Q2Qc 1) Qcplus Qcmult Qcminus Qcopp
+      (inv_model Qcops Qcdiv Qcisz idF A x) (inv_model Qcops Qcdiv Qcisz idF A x').
+Proof. exact shirokov_padded_numeric_refuted. Qed.
+Print Assumptions C08_shirokov_padded_numeric_refuted.
+
+(* non-vacuity (computed in Theory/InverseCongr.v): 2 + e1 + 5 e12 + e123 in signature (+,+,-), and the same
+   element with its blades permuted and explicit zeros on e2 and e13 - the hypotheses hold, both inverses are
+   computed over the rationals and agree on every blade; a 6-dimensional operand and a permutation of it *)
+Example C08_ex_inverse_hypotheses :
+  NoDup (canon_keys exA3) /\ restored Qc (Q2Qc 0) (Q2Qc 1) Qcplus Qcmult Qcminus Qcopp exA3 ex_x ex_x'.
+Proof. split; [exact ex_A3_nodup | exact ex_restored]. Qed.
+Example C08_ex_inverse_computed :
+  match inv_model Qcops Qcdiv Qcisz idF exA3 ex_x, inv_model Qcops Qcdiv Qcisz idF exA3 ex_x' with
+  | Ok r, Ok r' => qmv_eqb r r' = true
+                   /\ map (fun kv => (fst kv, this (snd kv))) r
+                      = [(0, (18 # 275)%Q); (1, (-29 # 825)%Q); (2, (0 # 1)%Q); (4, (-4 # 165)%Q);
+                         (3, (-29 # 165)%Q); (5, (0 # 1)%Q); (6, (4 # 825)%Q); (7, (7 # 275)%Q)]
+  | _, _ => False
+  end.
+Proof. exact ex_inverse_computed. Qed.
+Example C08_ex_inverse_instance :
+  res_equiv Qc (Q2Qc 0) (Q2Qc 1) Qcplus Qcmult Qcminus Qcopp
+    (inv_model Qcops Qcdiv Qcisz idF exA3 ex_x) (inv_model Qcops Qcdiv Qcisz idF exA3 ex_x').
+Proof.
+  apply (C08_inverse Qc (Q2Qc 0) (Q2Qc 1) Qcplus Qcmult Qcminus Qcopp Qcrt exA3 Qcdiv Qcisz idF ex_x ex_x');
+    try apply ex_restored; [exact ex_A3_nodup | apply C08_inverse_filters].
+Qed.
